@@ -31,7 +31,7 @@ CHECKS = {
    engine="B-lazy-schedule",
    technique="deterministic simulation: seeded late-delivery fault schedules at the Symbol._resolve / try_compute seam, verdict on concrete moved-source witness",
    category="exploration",
-   text="Seeded search over evaluation schedules of pdpy11's 'try now, otherwise defer' protocol: constant definitions are delivered late (lookups answered NotReadyError until a chosen later statement starts), the result must equal the fault-free run; every divergence is re-established by really moving the definition text and assembling with no injection before it is reported. Sampling, not proof: covers generated programs (all operand/directive positions, chains to depth 300) and the 21 practice programs.",
+   text="Seeded search over evaluation schedules of pdpy11's 'try now, otherwise defer' protocol: constant definitions are delivered late (lookups answered NotReadyError until a chosen later statement starts), the result must equal the fault-free run; every divergence is re-established by really moving the definition text and assembling with no injection before it is reported. Sampling, not proof: covers generated programs (all operand/directive positions, chains to depth 300; one program in ten fails by construction, so that the success/failure outcome is explored too) and the 21 practice programs.",
    design_ref="DESIGN.md 3.2, 5.1",
    note="Trusted: the harness (SimFS for include/insert reads, outcome comparison); the injection is not trusted for verdicts (witness re-run). Eligible definitions: top-level constants defined once, without '.'/local labels. Diagnostics are not compared."),
  "C07": dict(
